@@ -197,7 +197,7 @@ func parseKey(tokens []string) (*req, error) {
 				ExtraFiles: addFiles(extra)}
 		case strings.HasPrefix(tok, "P="):
 			f := strings.Split(tok[2:], ";")
-			if len(f) != 12 {
+			if len(f) != 13 {
 				return nil, fmt.Errorf("P: %d fields", len(f))
 			}
 			var p build.VerifPkg
@@ -211,6 +211,8 @@ func parseKey(tokens []string) (*req, error) {
 			if p.Name, err = unhex(f[2]); err != nil {
 				return nil, err
 			}
+			p.Kind = f[3]
+			f = append(f[:3:3], f[4:]...) // the remaining fields keep their former positions
 			p.ModKind = f[3]
 			if p.ModVersion, err = unhex(f[4]); err != nil {
 				return nil, err
